@@ -6,7 +6,9 @@
 //! which reads the values of a solver counterexample.  The oracle that CBMC decided and the
 //! oracle that is replayed natively are therefore the same code.
 
+pub mod cfg;
 pub mod refs;
+pub mod shapes;
 #[path = "kf_generated.rs"]
 pub mod kf;
 
@@ -209,9 +211,16 @@ pub fn forget<T>(t: T) {
 /// 101 violation reproduced (panic), 3 assumption violated, 4 bad vector / unknown harness.
 #[cfg(not(kani))]
 pub fn replay_main(registry: &[(&str, fn(&mut R))]) -> ! {
+    replay_main_multi(&[registry])
+}
+
+/// As [`replay_main`] over several registries.
+#[cfg(not(kani))]
+pub fn replay_main_multi(registries: &[&[(&str, fn(&mut R))]]) -> ! {
+    let registry: Vec<(&str, fn(&mut R))> = registries.iter().flat_map(|r| r.iter().copied()).collect();
     let args: Vec<String> = std::env::args().collect();
     if args.len() == 2 && args[1] == "--list" {
-        for (n, _) in registry {
+        for (n, _) in registry.iter() {
             println!("{n}");
         }
         std::process::exit(0);
@@ -270,4 +279,34 @@ pub fn replay_main(registry: &[(&str, fn(&mut R))]) -> ! {
 fn canary() {
     let x: u8 = kani::any();
     assert!(x as u16 + 1 > x as u16);
+}
+
+/// Replacement for `RandomState::new` under Kani (the real one reads OS randomness, which
+/// Kani cannot model): fixed keys.  Used only by harnesses that build a `FirBuilder`
+/// (`HashMap`); listed as a stub in every evidence file concerned.
+#[cfg(kani)]
+pub fn fixed_random_state() -> std::hash::RandomState {
+    unsafe { core::mem::transmute::<[u64; 2], std::hash::RandomState>([0x0123_4567, 0x89ab_cdef]) }
+}
+
+/// As [`register!`], for harnesses that construct a `HashMap` (FIR builder).
+#[macro_export]
+macro_rules! register_hashmap {
+    ($($name:ident = $path:expr => $unwind:literal),* $(,)?) => {
+        $(
+            #[cfg(kani)]
+            #[kani::proof]
+            #[kani::unwind($unwind)]
+            #[kani::stub(std::hash::RandomState::new, $crate::fixed_random_state)]
+            pub fn $name() {
+                let mut k = $crate::K;
+                ($path)(&mut k);
+            }
+        )*
+
+        #[cfg(not(kani))]
+        pub const REGISTRY_HASHMAP: &[(&str, fn(&mut $crate::R))] = &[
+            $( (stringify!($name), |r: &mut $crate::R| ($path)(r)), )*
+        ];
+    };
 }
